@@ -54,6 +54,11 @@ var tr tracker
 func init() {
 	memdb.VerifLockHook = func(kind string, stripe int) {
 		if atomic.LoadInt32(&stressMode) == 1 {
+			// concurrent sub-checks: optionally hand the processor over at lock events (the instants right
+			// after a lock is released are where a command that still has work to do is most exposed)
+			if y := atomic.LoadInt64(&yieldEvery); y > 0 && atomic.AddInt64(&yieldCount, 1)%y == 0 {
+				runtime.Gosched()
+			}
 			return
 		}
 		tr.mu.Lock()
@@ -93,6 +98,7 @@ func init() {
 }
 
 var stressMode int32
+var yieldEvery, yieldCount int64
 
 // ---------------------------------------------------------------- oracle 1: lock order, single-threaded
 
@@ -338,11 +344,12 @@ func TestStress(t *testing.T) {
 
 type AtomCase struct {
 	ShardNum int         `json:"shard_num"`
+	Yield    int         `json:"yield,omitempty"` // n > 0: the processor is handed over at every n-th lock event
 	Clients  [][]kit.Cmd `json:"clients"`
 }
 
 func genAtom(t *rapid.T) AtomCase {
-	c := AtomCase{ShardNum: rapid.SampledFrom([]int{1, 2, 8}).Draw(t, "shards")}
+	c := AtomCase{ShardNum: rapid.SampledFrom([]int{1, 2, 8}).Draw(t, "shards"), Yield: rapid.SampledFrom([]int{0, 0, 1, 2, 3}).Draw(t, "yield")}
 	family := gen.Pick(t, "family", "mset", "rename", "lmove", "smove")
 	nc := rapid.IntRange(2, 5).Draw(t, "clients")
 	per := rapid.SampledFrom([]int{4, 8, 14}).Draw(t, "per")
@@ -373,6 +380,14 @@ func genAtom(t *rapid.T) AtomCase {
 					cmds = append(cmds, kit.MkCmd("GET", gen.Pick(t, "gk", "a", "b")))
 				}
 			case "lmove":
+				if z := rapid.IntRange(0, 399).Draw(t, "blk"); z == 137 || z == 263 { // (interior values: the generator favours the ends of a range)
+					// a pop that waits (it polls: looks, then takes) next to commands that move the whole list
+					cmds = append(cmds, kit.MkCmd(gen.Pick(t, "bp", "BLPOP", "BRPOP"), gen.Pick(t, "bk", "l1", "l2"), "1"))
+					break
+				} else if z >= 300 && z < 330 {
+					cmds = append(cmds, kit.MkCmd("RENAME", gen.Pick(t, "rs", "l1", "l2"), gen.Pick(t, "rd", "l1", "l2")))
+					break
+				}
 				switch rapid.IntRange(0, 5).Draw(t, "op") {
 				case 0, 1:
 					src := gen.Pick(t, "src", "l1", "l2")
@@ -419,6 +434,8 @@ func genAtom(t *rapid.T) AtomCase {
 func execAtom(c AtomCase) kit.Outcome {
 	atomic.StoreInt32(&stressMode, 1)
 	defer atomic.StoreInt32(&stressMode, 0)
+	atomic.StoreInt64(&yieldEvery, int64(c.Yield))
+	defer atomic.StoreInt64(&yieldEvery, 0)
 	db := inproc.New(c.ShardNum, 0)
 	var mu sync.Mutex
 	var hist []porcupine.Operation
@@ -461,6 +478,7 @@ func execAtom(c AtomCase) kit.Outcome {
 	}
 	// final joint read by one client, after everything
 	fin := []kit.Cmd{kit.MkCmd("GET", "a"), kit.MkCmd("GET", "b"), kit.MkCmd("GET", "c"), kit.MkCmd("LRANGE", "l1", "0", "-1"), kit.MkCmd("LRANGE", "l2", "0", "-1"),
+		kit.MkCmd("TYPE", "l1"), kit.MkCmd("TYPE", "l2"), kit.MkCmd("TYPE", "l3"), kit.MkCmd("EXISTS", "l1", "l2", "l3"),
 		kit.MkCmd("SMEMBERS", "s1"), kit.MkCmd("SMEMBERS", "s2")}
 	multi := 0
 	for _, cl := range c.Clients {
